@@ -79,6 +79,8 @@ def judge_c08(b, out, cfg, enc, hexb, via="loads"):
 
 
 def judge_scenario(scn):
+    if scn.get("churn"):
+        return judge_churn(scn)[0]
     if scn["kind"] in ("msg_corrupt",) or (scn["kind"] == "raw_bytes" and scn.get("as") == "message"):
         b, out, cfg, enc, hexb = corrupt.run_message(scn)
         return judge_c08(b, out, cfg, enc, hexb)[0]
@@ -142,6 +144,13 @@ def run_msg_base(seed_i, tier, part, directed=True):
             part["sigs"].add(sig64(hashlib.sha1(b).digest(), cls, oc))
         h.update(f"{cls},{out.kind},{len(fails)};".encode())
         _record(part, fails, scn)
+    if base["config"] == "packaged":
+        cf, nev = judge_churn(dict(base, faults=[], churn={"iterations": 40}))
+        part["evals"] += nev
+        c["fault:configuration_object_churn"] += nev
+        for v in cf:
+            if sum(1 for x in part["fails"] if x["sig"] == v["sig"]) < 1 and len(part["fails"]) < 12:
+                part["fails"].append(v)
     part["digests"].append(h.hexdigest()[:16])
     if len(part["samples"]) < 1:
         sp = [f for f in faults.splice_faults(clean, rd0.spans, base["encoding"])]
@@ -173,6 +182,51 @@ def run_file_base(seed_i, tier, part):
                 c[f"fault:rec:{kk}"] += 1
             part["sigs"].add(sig64("file", canon(scn["rec_faults"]), seed_i))
             _record(part, fails, scn)
+
+
+def judge_churn(scn):
+    """configuration churn: the same bytes decoded again and again by fresh configuration objects that
+    alternate between the packaged configuration and a variant in which one present variable element is
+    LLLVAR instead of LLVAR (or one present element has no configuration); each decode is judged against
+    the reference for the configuration it was given.  Catches state remembered per configuration OBJECT."""
+    import copy as _copy
+    from ..decode import run_loads
+    b = corrupt.clean_message_bytes(scn)
+    enc = scn.get("encoding") or "latin_1"
+    hexb = scn.get("hex_bitmap", False)
+    pk = msgcodec.packaged_bit_config()
+    rd = refiso.ref_read(b, pk, enc, hexb)
+    ll = next((e for e in rd.spans["elems"] if e["type"] == "LLVAR" and not e.get("proc")), None)
+    anyel = rd.spans["elems"][-1] if rd.spans["elems"] else None
+    fails = []
+    n = scn["churn"]["iterations"]
+    one = _copy.deepcopy(pk)          # ONE caller-owned object edited in place between decodes
+    for it in range(n):
+        same_object = it >= n // 2
+        cfg = one if same_object else _copy.deepcopy(pk)
+        if same_object:
+            # restore, then (every other time) edit in place: replace / delete top-level entries
+            for k in list(cfg):
+                if k not in pk:
+                    del cfg[k]
+            for k in pk:
+                cfg[k] = _copy.deepcopy(pk[k])
+        if it % 2:
+            if ll is not None and (it // 2) % 2 == 0:
+                cfg[str(ll["bit"])] = dict(cfg[str(ll["bit"])], field_type="LLLVAR")
+            elif anyel is not None:
+                del cfg[str(anyel["bit"])]
+        out = run_loads(b, cfg, scn.get("encoding"), hexb)
+        how = "one configuration object edited in place between decodes" if same_object else "a fresh configuration object each time"
+        f, cls = judge_c08(b, out, _copy.deepcopy(cfg), enc, hexb, via=f"loads #{it + 1} of {n} ({how})")
+        for v in f:
+            v["sig"] = "C08.config_churn|" + v["oracle"]
+            v["scenario"] = scn
+        if f and not fails:
+            fails += f[:1]
+        if not same_object:
+            del cfg
+    return fails, n
 
 
 def plan(tier, seed, wave):
@@ -214,6 +268,8 @@ def digest_slice(seed):
 
 
 def minimise(scn, oracle):
+    if scn.get("churn"):
+        return scn
     return c07.minimise_corrupt(scn, oracle, judge_scenario)
 
 
